@@ -746,7 +746,7 @@ impl Broker {
         }
     }
 
-    pub fn deliver_at(&mut self, tr: &mut Transport, at: u64, qos: u8, payload: &PayloadSpec) {
+    pub fn deliver_at(&mut self, tr: &mut Transport, at: u64, qos: u8, payload: &PayloadSpec, split: Option<(usize, u64)>) {
         if !self.connack_sent {
             return;
         }
@@ -764,7 +764,20 @@ impl Broker {
             let state = if qos == 1 { BState::AwaitAck } else { BState::AwaitRec };
             self.b_inflight.push(BIn { pid, state, publish: pb.clone() });
         }
-        self.queue(tr, Some(Packet::Publish(pb)), bytes, Some(at));
+        match split {
+            Some((n, tail_at)) if bytes.len() >= 2 => {
+                // head and tail of one packet become readable at different times
+                let n = n.clamp(1, bytes.len() - 1);
+                let off = tr.inbound.len();
+                let idx = self.inbound.len();
+                tr.push_inbound_at(at, &bytes[..n]);
+                let eff = tr.push_inbound_at(tail_at, &bytes[n..]);
+                self.inbound.push(InPkt { tr: tr.id, off, len: bytes.len(), packet: Some(Packet::Publish(pb)), bytes: bytes.clone(), at: eff });
+                tr.release_due();
+                self.log.borrow_mut().push(Event::Queued { tr: tr.id, idx });
+            }
+            _ => self.queue(tr, Some(Packet::Publish(pb)), bytes, Some(at)),
+        }
     }
 
     fn alloc_bpid(&mut self) -> u16 {
@@ -1004,7 +1017,18 @@ impl World {
                     c.can_publish(QoS::ExactlyOnce),
                 ]),
                 quiescent: c.session().is_publish_quiescent(),
-                handles: self.ops_h.iter().map(|o| st(c.is_pending(o), c.is_complete(o), c.is_invalidated(o))).collect(),
+                // the same question asked through the connection and through its session must get
+                // the same answer (bit 6 marks a disagreement)
+                handles: self
+                    .ops_h
+                    .iter()
+                    .map(|o| {
+                        let via_conn = st(c.is_pending(o), c.is_complete(o), c.is_invalidated(o));
+                        let s = c.session();
+                        let via_session = st(s.is_pending(o), s.is_complete(o), s.is_invalidated(o));
+                        if via_conn == via_session { via_conn } else { HStatus::Inconsistent(0x40) }
+                    })
+                    .collect(),
             },
             (None, Some(s)) => Sample {
                 connected: None,
@@ -1474,10 +1498,14 @@ fn do_step(w: &mut World, tr: &Tr, conn: &mut Connection<'_, '_, SimIo>, at: (us
                 }
             }
         }
-        Step::DeliverAt { delay_ms, qos, payload } => {
+        Step::DeliverAt { delay_ms, qos, payload, split } => {
             w.broker.pump(&mut tr.borrow_mut());
             let at = clock::now() + *delay_ms as u64 * clock::TICKS_PER_MS;
-            w.broker.deliver_at(&mut tr.borrow_mut(), at, *qos, payload);
+            let split = split.map(|(n, tail_ms)| {
+                let tail = if tail_ms == u32::MAX { u64::MAX / 4 } else { at + tail_ms as u64 * clock::TICKS_PER_MS };
+                (n as usize, tail)
+            });
+            w.broker.deliver_at(&mut tr.borrow_mut(), at, *qos, payload, split);
         }
         Step::Burn { n } => {
             let mut done = 0u32;
